@@ -35,6 +35,9 @@ pub struct Params {
     pub delay_ms: u64,
     pub silence: Silence,
     pub traffic: bool,
+    /// the largest value the command line accepts (u64::MAX seconds) instead of interval_ms / timeout_ms
+    pub huge_interval: bool,
+    pub huge_timeout: bool,
 }
 
 fn class(p: &Params) -> &'static str {
@@ -57,7 +60,10 @@ pub fn make(p: Params) -> ScenarioFn {
             let blackhole = matches!(p.silence, Silence::BlackholeAfter(_));
             let c2s_cfg = if blackhole { PipeCfg::new("c2s").latency(d).capacity(300) } else { PipeCfg::new("c2s").latency(d) };
             let mut link = peer_link(PipeCfg::new("s2c").latency(d), c2s_cfg);
-            let hb = SessionHeartbeatConfig { interval: Duration::from_millis(p.interval_ms), timeout: Duration::from_millis(p.timeout_ms) };
+            let hb = SessionHeartbeatConfig {
+                interval: if p.huge_interval { Duration::from_secs(u64::MAX) } else { Duration::from_millis(p.interval_ms) },
+                timeout: if p.huge_timeout { Duration::from_secs(u64::MAX) } else { Duration::from_millis(p.timeout_ms) },
+            };
             let sess = match start_client_session(link.sess_r, link.sess_w, padding(STOP0), Some(hb), 0).await {
                 Ok(s) => s,
                 Err(e) => {
@@ -78,6 +84,8 @@ pub fn make(p: Params) -> ScenarioFn {
             // scripted peer
             let last_answer_ms: Arc<Mutex<Option<u64>>> = Arc::new(Mutex::new(None));
             let la = last_answer_ms.clone();
+            let req_count: Arc<Mutex<u32>> = Arc::new(Mutex::new(0));
+            let rc = req_count.clone();
             let silence = p.silence;
             let delay = p.delay_ms;
             let peer_task = tokio::spawn(async move {
@@ -92,6 +100,7 @@ pub fn make(p: Params) -> ScenarioFn {
                         PSH if f.data.len() == 7 && f.data[0] == 1 => link.peer.send(SYNACK, f.id, b""),
                         HEART_REQ => {
                             reqs += 1;
+                            *rc.lock().unwrap() = reqs;
                             let answer = match silence {
                                 Silence::Never => true,
                                 Silence::FromStart => false,
@@ -147,7 +156,7 @@ pub fn make(p: Params) -> ScenarioFn {
                 None
             };
             // sample is_closed along virtual time
-            let horizon_ms = 20 * p.interval_ms.max(p.timeout_ms);
+            let horizon_ms = if p.huge_interval || p.huge_timeout { 20_000 } else { 20 * p.interval_ms.max(p.timeout_ms) };
             let step = 50u64;
             let mut closed_at: Option<u64> = None;
             let mut t = 0u64;
@@ -162,6 +171,27 @@ pub fn make(p: Params) -> ScenarioFn {
             let healthy = p.silence == Silence::Never;
             let la_ms = *last_answer_ms.lock().unwrap();
             out.obs = format!("closed_at={closed_at:?} last_answer={la_ms:?}");
+            if p.huge_interval || p.huge_timeout {
+                // extreme values: the monitor must keep running (no crash) and keep its period; a deadline that
+                // lies beyond the horizon cannot be observed
+                let n = *req_count.lock().unwrap();
+                let want = if p.huge_interval { 1 } else { (horizon_ms / p.interval_ms) as u32 - 1 };
+                if closed_at.is_none() && n < want {
+                    out.viol("C14:monitor-stopped", format!("interval {}, timeout {}: the peer received {n} keep-alive request(s) in {horizon_ms} ms, at least {want} were due", if p.huge_interval { "u64::MAX s".to_string() } else { format!("{} ms", p.interval_ms) }, if p.huge_timeout { "u64::MAX s".to_string() } else { format!("{} ms", p.timeout_ms) }));
+                }
+                if healthy && let Some(c) = closed_at {
+                    out.viol("C14:healthy-session-closed:extreme-values", format!("closed at {c} ms although the peer answers every request"));
+                }
+                if !healthy && !p.huge_timeout && p.silence == Silence::FromStart && closed_at.is_none() && !p.huge_interval {
+                    out.viol("C14:dead-session-never-closed:extreme-values", "never closed".to_string());
+                }
+                if let Some(t) = traffic {
+                    t.abort();
+                }
+                peer_task.abort();
+                let _ = sess.close().await;
+                return out;
+            }
             if healthy {
                 if let Some(c) = closed_at {
                     out.viol(
@@ -206,7 +236,7 @@ pub fn make(p: Params) -> ScenarioFn {
 }
 
 pub fn params_json(p: &Params) -> serde_json::Value {
-    json!({"interval_ms": p.interval_ms, "timeout_ms": p.timeout_ms, "one_way_delay_ms": p.delay_ms, "silence": format!("{:?}", p.silence), "traffic": p.traffic})
+    json!({"interval_ms": p.interval_ms, "timeout_ms": p.timeout_ms, "one_way_delay_ms": p.delay_ms, "silence": format!("{:?}", p.silence), "traffic": p.traffic, "huge_interval": p.huge_interval, "huge_timeout": p.huge_timeout})
 }
 
 pub fn all_params(tier: Tier) -> Vec<(Params, usize)> {
@@ -222,7 +252,13 @@ pub fn all_params(tier: Tier) -> Vec<(Params, usize)> {
     // black-holing peers (stop answering AND reading) with an upload in progress, for T >= I
     for (i, t) in [(1u64, 1u64), (2, 3), (2, 5), (5, 20)] {
         for k in 1..=2u32 {
-            v.push((Params { interval_ms: i * 1000, timeout_ms: t * 1000, delay_ms: 1, silence: Silence::BlackholeAfter(k), traffic: true }, if thorough { 1 } else { 0 }));
+            v.push((Params { interval_ms: i * 1000, timeout_ms: t * 1000, delay_ms: 1, silence: Silence::BlackholeAfter(k), traffic: true, huge_interval: false, huge_timeout: false }, if thorough { 1 } else { 0 }));
+        }
+    }
+    // the largest values the command line accepts
+    for (hi, ht) in [(false, true), (true, false), (true, true)] {
+        for s in [Silence::Never, Silence::FromStart, Silence::AfterResponse(1)] {
+            v.push((Params { interval_ms: 1000, timeout_ms: 1000, delay_ms: 1, silence: s, traffic: false, huge_interval: hi, huge_timeout: ht }, 0));
         }
     }
     for i in &intervals {
@@ -250,7 +286,7 @@ pub fn all_params(tier: Tier) -> Vec<(Params, usize)> {
                         }
                         // schedule deviations on a subset: small configurations
                         let bound = if *i <= 2 && *t <= 3 && d <= 1 && (thorough || !traffic) { 1 } else { 0 };
-                        v.push((Params { interval_ms: i_ms, timeout_ms: t_ms, delay_ms: d, silence: *s, traffic }, bound));
+                        v.push((Params { interval_ms: i_ms, timeout_ms: t_ms, delay_ms: d, silence: *s, traffic, huge_interval: false, huge_timeout: false }, bound));
                     }
                 }
             }
@@ -401,7 +437,7 @@ pub fn run(tier: Tier) -> i32 {
     rep.assumptions = vec![
         "the peer is scripted: it answers a keep-alive request immediately (the network delay is the pipe latency) until it falls silent".into(),
         "'answers in time' = round trip < timeout; 'last answer' = instant the last answer reaches the client; sampling step 50 ms".into(),
-        "interval/timeout are whole seconds as the command line accepts them (any positive integers)".into(),
+        "interval/timeout are whole seconds as the command line accepts them (any positive integers; u64::MAX seconds is covered by dedicated cases)".into(),
     ];
     let cap = Duration::from_secs(if tier.is_thorough() { 1200 } else { 60 });
     run_items(&mut rep, "C14", tier, items(tier), DxOpts { time_cap: cap, det_replays: 1, max_violations: 2, vacuity_check: false });
